@@ -601,11 +601,15 @@ pub fn run_batch<S: Sim>(sim: &S, opts: &Opts) -> BatchReport {
     let mut reported_rules: BTreeSet<String> = BTreeSet::new();
     let mut replay_files: Vec<String> = Vec::new();
     let _ = std::fs::create_dir_all(format!("{}/replays", opts.verif_dir));
+    // rules whose first candidates could not be reproduced in a fresh process: rule -> attempts
+    let mut unreproduced: BTreeMap<String, (u32, u64)> = BTreeMap::new();
     for (i, sc, v) in &violations {
         if reported_rules.contains(&v.rule) || reported_rules.len() >= 3 {
             continue;
         }
-        reported_rules.insert(v.rule.clone());
+        if unreproduced.get(&v.rule).is_some_and(|(n, _)| *n >= 6) {
+            continue;
+        }
         let (min_sc, used) = shrink(sim, sc.clone(), &v.rule, &ctx, opts.shrink_budget);
         // re-execute the minimised scenario twice with the full log; must agree
         let ctx_log = ExecCtx {
@@ -628,14 +632,17 @@ pub fn run_batch<S: Sim>(sim: &S, opts: &Opts) -> BatchReport {
             None => match fresh_pair(sc) {
                 Some(r) => (sc.clone(), r, false),
                 None => {
+                    // try the next run that broke the same rule
                     let _ = std::fs::remove_file(&cand);
-                    eprintln!("HARNESS-ERROR: violation of run {i} (rule {}) is not reproducible in a fresh process", v.rule);
-                    exit_code = 2;
+                    let e = unreproduced.entry(v.rule.clone()).or_insert((0, *i));
+                    e.0 += 1;
                     continue;
                 }
             },
         };
         let _ = std::fs::remove_file(&cand);
+        reported_rules.insert(v.rule.clone());
+        unreproduced.remove(&v.rule);
         let v1 = r1.violation.clone().expect("checked");
         let v1 = &v1;
         let path = format!(
@@ -679,6 +686,57 @@ pub fn run_batch<S: Sim>(sim: &S, opts: &Opts) -> BatchReport {
         }
     }
 
+    if reported_rules.is_empty() && !unreproduced.is_empty() && opts.workers > 1 && std::env::var("SIMCHECK_CHILD").is_err() {
+        // Every candidate leaned on other simulations running in this process (the code under test
+        // shares process-global state between independent runs). Search again in a child process with
+        // a single worker, where only one simulation runs at a time.
+        println!("NOTE: violations seen inside the batch do not reproduce in a fresh process; searching again with one worker in a child process");
+        if let Ok(exe) = std::env::current_exe() {
+            let child = std::process::Command::new(exe)
+                .args([
+                    "run",
+                    sim.property(),
+                    "--tier",
+                    &opts.tier,
+                    "--seed",
+                    &opts.seed.to_string(),
+                    "--runs",
+                    &runs.min(300_000).to_string(),
+                    "--workers",
+                    "1",
+                    "--max-wall-s",
+                    "90",
+                    "--no-evidence",
+                    "--verif-dir",
+                    &opts.verif_dir,
+                ])
+                .env("SIMCHECK_CHILD", "1")
+                .output();
+            if let Ok(out) = child {
+                let text = String::from_utf8_lossy(&out.stdout);
+                for l in text.lines().filter(|l| l.starts_with("VIOLATION ")) {
+                    println!("{l}");
+                    if let Some(p) = l.split_whitespace().find_map(|w| w.strip_prefix("replay=")) {
+                        replay_files.push(p.to_string());
+                    }
+                    reported_rules.insert(l.to_string());
+                    if exit_code == 0 {
+                        exit_code = 1;
+                    }
+                }
+            }
+        }
+    }
+    if reported_rules.is_empty() {
+        for (rule, (n, first)) in &unreproduced {
+            eprintln!("HARNESS-ERROR: violations of rule {rule} (first: run {first}, {n} candidates tried) are not reproducible in a fresh process");
+            exit_code = 2;
+        }
+    } else {
+        for (rule, (n, first)) in &unreproduced {
+            println!("NOTE: violations of rule {rule} seen inside the batch (first: run {first}, {n} candidates tried) did not reproduce in a fresh process");
+        }
+    }
     let wall = t0.elapsed().as_secs_f64();
     if opts.write_evidence {
         let zero_probes: Vec<&str> = sim
